@@ -43,6 +43,12 @@ SPEC = {
              "the validating operations again on containers held by a sub-configuration and by a configuration inside a list, "
              "whole-value assignments with an unacceptable item / entry in every placement (a refusal is observed with its full "
              "reference path <configuration path>.<field>[<key as given>], compared with the model: C15_dict_* theorems); "
+             "whole-value assignment (list / tuple / iterator, the typed list or dict of the same field of another configuration, of "
+             "another field of the same and of another configuration - same class with stricter and looser constraints -, the "
+             "value itself) followed by further insertions: the RECEIVING field validates every item; item fields that are not "
+             "idempotent (validator= adding 40) and mutable items (typed dicts): per operation the number of item-validator "
+             "calls is observed and compared with the model (copy and the fast paths validate nothing), results built from held "
+             "items must hold the very same item objects as the builtin's shallow result; "
              "plus the two override-table cases; then seeded random "
              "histories (quick <= 14 ops, thorough <= 40 ops). A case is non-trivial when it performs at least one "
              "operation; distinct = distinct (field, initial value, history)"),
@@ -58,5 +64,7 @@ SPEC = {
                     "sort is modelled on homogeneous int/bool or str contents only; ordering comparisons (<, <=) of whole "
                     "containers, pickling and repr are inherited unchanged and not in the operation alphabet",
                     "proxy * n, proxy[a:b], proxy | other return plain builtins (outside the property's typedness clause)",
-                    "ListProxy.extend keeps the items accepted before a refused one (progressive append): modelled as is"],
+                    "ListProxy.extend keeps the items accepted before a refused one (progressive append): modelled as is",
+                    "the number of validator calls per operation (vcount) is a parallel reading of override_step, tied to the code by "
+                    "counting the real calls; object identity of items is decided on the implementation only (oracle)"],
 }
